@@ -30,16 +30,16 @@ ASSUMPTIONS = [
     "sympy evaluates Polar's returned expression correctly at integer n and rational parameter values",
     "n ranges over 0..N only (N=6..8 discrete, 3..4 continuous); all-n reach for an instance comes from chaining with C03/C04",
 ]
-TIMEOUT = {"quick": 25, "thorough": 120}
-DEADLINE = {"quick": 70, "thorough": 1500}
+TIMEOUT = {"quick": 18, "thorough": 120}
+DEADLINE = {"quick": 80, "thorough": 1500}
 MIN_DECIDING = {"quick": 40, "thorough": 300}
-NCASES = {"quick": 150, "thorough": 2600}
+NCASES = {"quick": 110, "thorough": 2600}
 
 
 def generate(seed, tier):
     cases = []
     n = NCASES[tier]
-    n_corpus = 30 if tier == "quick" else 400
+    n_corpus = 20 if tier == "quick" else 400
     for i in range(n):
         cs = K.harness_seed(seed, ID, i)
         rng = random.Random(cs)
